@@ -50,7 +50,7 @@ Init == /\ \E n \in 1..MaxLines : frames = <<NewFrame(n, FALSE)>>
 (* --- one loop iteration that stays in the same _try_parse -------------------------------- *)
 \* the parser failed at a new location and the loop rewrote the input (wrapped a line), deleted a
 \* blank / comment-only line, or switched to greedy wrapping
-Continue(kind, el, ec, n2, c2) ==
+Continue(kind, el, ec, n2, c2, g2) ==
   /\ pc = "head" /\ Top.retries > 0
   \* c2: the column remembered for the no-progress test after a wrap (the code adds the width of the
   \* inserted "![" bracket; the exact shift is the code's business, not part of the termination argument)
@@ -59,8 +59,10 @@ Continue(kind, el, ec, n2, c2) ==
   /\ el \in 1..(Top.n + 1) /\ ec \in 0..MaxCol /\ n2 \in Nat
   \* the no-progress test: an error at the same place as last time ends the attempt
   /\ ~(Top.eline = el /\ Top.ecol \in {ec, ec + 1})
-  /\ \/ /\ kind = "wrap" /\ c2 \in Nat
-        /\ frames' = SetTop([Top EXCEPT !.retries = @ - Dec, !.eline = el, !.ecol = c2, !.n = n2])
+  \* (an unbalanced bracket right at the error makes the same iteration switch to greedy wrapping *and* wrap:
+  \*  g2 is the greedy flag afterwards - it can only go from FALSE to TRUE)
+  /\ \/ /\ kind = "wrap" /\ c2 \in Nat /\ g2 \in BOOLEAN /\ (Top.greedy => g2)
+        /\ frames' = SetTop([Top EXCEPT !.retries = @ - Dec, !.eline = el, !.ecol = c2, !.n = n2, !.greedy = g2])
      \/ /\ kind = "delete"     \* a blank or comment-only line is dropped
         /\ frames' = SetTop([Top EXCEPT !.retries = @ - 1, !.eline = -1, !.ecol = -1, !.n = n2])
      \/ /\ kind = "gogreedy" /\ ~Top.greedy /\ n2 = Top.n
@@ -116,7 +118,7 @@ Fail ==
 \* the code's only defence against an adversary that always reports "new" locations
 MustFail == pc = "head" /\ Top.retries <= 0
 
-Next == \/ \E k \in {"wrap", "delete", "gogreedy"}, el \in 1..(MaxLines + 1), ec \in 0..MaxCol, n2 \in 0..MaxLines, c2 \in 0..(MaxCol + 1) : Continue(k, el, ec, n2, c2)
+Next == \/ \E k \in {"wrap", "delete", "gogreedy"}, el \in 1..(MaxLines + 1), ec \in 0..MaxCol, n2 \in 0..MaxLines, c2 \in 0..(MaxCol + 1), g2 \in BOOLEAN : Continue(k, el, ec, n2, c2, g2)
         \/ \E el \in 1..(MaxLines + 1), ec \in 0..MaxCol, m \in 0..MaxLines : Recurse(el, ec, m)
         \/ \E el \in 1..(MaxLines + 1), ec \in 0..MaxCol, n2 \in 1..MaxLines : Ok(el, ec, n2)
         \/ Fail
